@@ -336,24 +336,43 @@ tokio::task_local! {
 }
 
 /// Global wait-for graph.
-/// Key: waiting actor's ID, Value: target actor's Identity.
+/// Key: waiting actor's ID, Value: target actor's Identity and the ticket of that `ask`.
 #[cfg(feature = "deadlock-detection")]
-static WAIT_FOR: OnceLock<Mutex<HashMap<u64, Identity>>> = OnceLock::new();
+static WAIT_FOR: OnceLock<Mutex<HashMap<u64, (Identity, u64)>>> = OnceLock::new();
 
 #[cfg(feature = "deadlock-detection")]
-pub(crate) fn wait_for_graph() -> &'static Mutex<HashMap<u64, Identity>> {
+pub(crate) fn wait_for_graph() -> &'static Mutex<HashMap<u64, (Identity, u64)>> {
     WAIT_FOR.get_or_init(|| Mutex::new(HashMap::new()))
 }
 
+/// Returns a fresh ticket identifying one in-flight `ask`.
 #[cfg(feature = "deadlock-detection")]
-pub(crate) struct WaitForGuard(pub(crate) u64);
+pub(crate) fn next_wait_ticket() -> u64 {
+    static TICKETS: AtomicU64 = AtomicU64::new(1);
+    TICKETS.fetch_add(1, std::sync::atomic::Ordering::Relaxed)
+}
+
+/// Removes the edge of `caller` if it still belongs to the `ask` identified by `ticket`.
+/// Called by the callee as soon as the request has been answered, and by the caller's guard
+/// when its `ask` future completes or is dropped; whichever comes second is a no-op.
+#[cfg(feature = "deadlock-detection")]
+pub(crate) fn retire_wait_for(caller: u64, ticket: u64) {
+    let mut graph = match wait_for_graph().lock() {
+        Ok(graph) => graph,
+        Err(poisoned) => poisoned.into_inner(),
+    };
+    if graph.get(&caller).map(|(_, t)| *t) == Some(ticket) {
+        graph.remove(&caller);
+    }
+}
+
+#[cfg(feature = "deadlock-detection")]
+pub(crate) struct WaitForGuard(pub(crate) u64, pub(crate) u64);
 
 #[cfg(feature = "deadlock-detection")]
 impl Drop for WaitForGuard {
     fn drop(&mut self) {
-        if let Ok(mut graph) = wait_for_graph().lock() {
-            graph.remove(&self.0);
-        }
+        retire_wait_for(self.0, self.1);
     }
 }
 
@@ -361,12 +380,12 @@ impl Drop for WaitForGuard {
 /// Self-ask (caller == callee) is checked by the caller before invoking this function,
 /// so this only handles cycles of 2+ hops.
 #[cfg(feature = "deadlock-detection")]
-pub(crate) fn has_path(graph: &HashMap<u64, Identity>, from: u64, to: u64) -> bool {
+pub(crate) fn has_path(graph: &HashMap<u64, (Identity, u64)>, from: u64, to: u64) -> bool {
     let mut current = from;
     let max_steps = graph.len();
     for _ in 0..max_steps {
         match graph.get(&current) {
-            Some(identity) => {
+            Some((identity, _)) => {
                 if identity.id == to {
                     return true;
                 }
@@ -381,7 +400,7 @@ pub(crate) fn has_path(graph: &HashMap<u64, Identity>, from: u64, to: u64) -> bo
 /// Format the cycle path for panic messages.
 #[cfg(feature = "deadlock-detection")]
 pub(crate) fn format_cycle_path(
-    graph: &HashMap<u64, Identity>,
+    graph: &HashMap<u64, (Identity, u64)>,
     caller: Identity,
     callee: Identity,
 ) -> String {
@@ -393,7 +412,7 @@ pub(crate) fn format_cycle_path(
     let max_steps = graph.len();
     for _ in 0..max_steps {
         match graph.get(&current) {
-            Some(identity) => {
+            Some((identity, _)) => {
                 path.push(identity.to_string());
                 if identity.id == caller.id {
                     break;
@@ -491,6 +510,9 @@ where
         reply_channel: Option<oneshot::Sender<Box<dyn std::any::Any + Send>>>,
         /// The actor reference for potential self-messaging or context.
         actor_ref: ActorRef<T>,
+        /// Wait-for edge (caller id, ticket) of the `ask` that sent this envelope, if tracked.
+        #[cfg(feature = "deadlock-detection")]
+        wait_for: Option<(u64, u64)>,
     },
     /// A signal for the actor to stop gracefully after processing existing messages in its mailbox.
     ///
